@@ -700,3 +700,121 @@ pub fn constructs(body: &[S]) -> Vec<String> {
     body.iter().for_each(|s| walk_s(s, &mut set));
     set.into_iter().collect()
 }
+
+// ---------------------------------------------------------------------------------------------
+// stray exits: variants of a program that the checker must reject
+
+fn visit_fn_bodies_e(e: &mut E, f: &mut dyn FnMut(&mut Vec<S>)) {
+    match e {
+        E::Int(_) | E::Float(_) | E::Str(_) | E::Bool(_) | E::Void | E::Var(_) => {}
+        E::Un(_, a) | E::Post(_, a) | E::TypeFilter(a, _) | E::TupAcc(a, _) | E::Field(a, _) | E::Mut(_, a) | E::MutInf(_, a) | E::Tick(_, _, a) | E::Len(a) => {
+            visit_fn_bodies_e(a, f)
+        }
+        E::Bin(_, a, b) | E::Index(a, b) | E::Rep(a, b) => {
+            visit_fn_bodies_e(a, f);
+            visit_fn_bodies_e(b, f);
+        }
+        E::Reduce(a, b, c) => {
+            visit_fn_bodies_e(a, f);
+            visit_fn_bodies_e(b, f);
+            visit_fn_bodies_e(c, f);
+        }
+        E::Call(a, args) => {
+            visit_fn_bodies_e(a, f);
+            args.iter_mut().for_each(|x| visit_fn_bodies_e(x, f));
+        }
+        E::Slice(a, s, t, u, _) => {
+            visit_fn_bodies_e(a, f);
+            for x in [s, t, u].into_iter().flatten() {
+                visit_fn_bodies_e(x, f);
+            }
+        }
+        E::Arr(xs) | E::Tup(xs) => xs.iter_mut().for_each(|x| visit_fn_bodies_e(x, f)),
+        E::Struct(fs) => fs.iter_mut().for_each(|(_, x)| visit_fn_bodies_e(x, f)),
+        E::Lambda(_, _, body) => {
+            f(body);
+            body.iter_mut().for_each(|s| visit_fn_bodies_s(s, f));
+        }
+        E::Mod(body) => body.iter_mut().for_each(|s| visit_fn_bodies_s(s, f)),
+    }
+}
+
+fn visit_fn_bodies_s(s: &mut S, f: &mut dyn FnMut(&mut Vec<S>)) {
+    match s {
+        S::Expr(e) => visit_fn_bodies_e(e, f),
+        S::Let(_, a) | S::Destruct(_, a) | S::Loop(a) => visit_fn_bodies_s(a, f),
+        S::FnDecl(_, _, _, body) => {
+            f(body);
+            body.iter_mut().for_each(|s| visit_fn_bodies_s(s, f));
+        }
+        S::Block(b) => b.iter_mut().for_each(|s| visit_fn_bodies_s(s, f)),
+        S::If(c, a, b) | S::IfSet(_, _, c, a, b) => {
+            visit_fn_bodies_e(c, f);
+            visit_fn_bodies_s(a, f);
+            if let Some(b) = b {
+                visit_fn_bodies_s(b, f);
+            }
+        }
+        S::Match(c, arms) => {
+            visit_fn_bodies_e(c, f);
+            for arm in arms {
+                match arm {
+                    Arm::Type(_, _, b) | Arm::Other(b) => visit_fn_bodies_s(b, f),
+                    Arm::Value(vs, b) => {
+                        vs.iter_mut().for_each(|v| visit_fn_bodies_e(v, f));
+                        visit_fn_bodies_s(b, f);
+                    }
+                }
+            }
+        }
+        S::While(c, a) | S::WhileSet(_, _, c, a) | S::For(_, c, a) => {
+            visit_fn_bodies_e(c, f);
+            visit_fn_bodies_s(a, f);
+        }
+        S::Break | S::Continue => {}
+        S::Return(a) => {
+            if let Some(a) = a {
+                visit_fn_bodies_s(a, f);
+            }
+        }
+    }
+}
+
+/// the program with a `break` / `continue` placed at the top of the `pick`-th function body (outside every loop of
+/// that function, wherever the function itself is written), or - when there is no function - at the top level
+/// together with a top-level `return`; the checker must reject each of them. Returns (program, what was inserted).
+pub fn stray_exit_variants(body: &[S], pick: u64) -> Vec<(Vec<S>, &'static str)> {
+    let mut count = 0u64;
+    let mut probe = body.to_vec();
+    probe.iter_mut().for_each(|s| visit_fn_bodies_s(s, &mut |_| count += 1));
+    let mut out = Vec::new();
+    let nested = |exit: S, how: u64| -> S {
+        match how % 3 {
+            0 => exit,
+            1 => S::If(E::Bool(true), Box::new(S::Block(vec![exit])), None),
+            _ => S::Block(vec![S::Block(vec![exit])]),
+        }
+    };
+    if count > 0 {
+        for (exit, what) in [(S::Break, "break-in-function-outside-its-loops"), (S::Continue, "continue-in-function-outside-its-loops")] {
+            let mut v = body.to_vec();
+            let mut k = 0u64;
+            let target = pick % count;
+            v.iter_mut().for_each(|s| {
+                visit_fn_bodies_s(s, &mut |b| {
+                    if k == target {
+                        b.insert(0, nested(exit.clone(), pick / count));
+                    }
+                    k += 1;
+                })
+            });
+            out.push((v, what));
+        }
+    }
+    for (exit, what) in [(S::Break, "break-at-top-level"), (S::Continue, "continue-at-top-level"), (S::Return(Some(Box::new(S::Expr(E::Int(1))))), "return-at-top-level")] {
+        let mut v = body.to_vec();
+        v.insert(0, nested(exit, pick));
+        out.push((v, what));
+    }
+    out
+}
